@@ -23,6 +23,9 @@ type c18Case struct {
 	Conc  bool  `json:"conc"`
 	Cap   int   `json:"cap"`
 	Reads []int `json:"reads"`
+	// IntrEvery > 0 (concurrent cases): an interrupt token is made pending (buffered interrupt channel, non-blocking send) before every
+	// IntrEvery-th Read, so that data and interrupt are often ready for the same Read; interrupted reads are simply repeated
+	IntrEvery int `json:"intr_every"`
 }
 
 type c18Read struct {
@@ -213,14 +216,29 @@ func c18Concurrent(c *c18Case) c18Result {
 		w.Close()
 	}()
 	var out c18Result
+	var intr chan struct{}
+	if c.IntrEvery > 0 {
+		intr = make(chan struct{}, 1)
+		r.SetInterrupt(intr)
+	}
 	for i := 0; i < 100000; i++ {
 		sz := c.Reads[i%len(c.Reads)]
 		buf := make([]byte, sz)
+		if intr != nil && i%c.IntrEvery == 0 {
+			synctest.Wait() // let the writer fill the channel first: data and interrupt are then ready together
+			select {
+			case intr <- struct{}{}:
+			default:
+			}
+		}
 		n, err := r.Read(buf)
 		out.All = append(out.All, toInts(buf[:n])...)
 		if err == io.EOF {
 			out.EOF = true
 			break
+		}
+		if err == stream.ErrInterrupted {
+			continue
 		}
 		if err != nil {
 			break
